@@ -198,6 +198,19 @@ def d2_stack(ctx):
                         sel = expand_name(du, s0, st)
                 ax = kwarg(agg, "axis") if isinstance(agg, ast.Call) else None
                 oksel = isinstance(sel, ast.Compare) and len(sel.ops) == 1 and isinstance(sel.ops[0], ast.Eq) and {loc_name(sel.left), loc_name(sel.comparators[0])} == {it, inv}
+                if not oksel and isinstance(sel, ast.Subscript) and isinstance(sel.slice, ast.Slice) and sel.slice.step is None:
+                    # sorted form: ORDER[B[k]:B[k + 1]] with ORDER = argsort(inverse, kind='stable') and B = r_[0, cumsum(counts)]: the members of group k, in their original order
+                    order = expand_name(du, sel.value, st)
+                    lo_, hi_ = (expand_name(du, x, st) if isinstance(x, ast.Name) else x for x in (sel.slice.lower, sel.slice.upper))
+                    ok_order = isinstance(order, ast.Call) and call_name(order) == "argsort" and order.args and loc_name(order.args[0]) == inv \
+                        and const_value(kwarg(order, "kind")) in ((True, "stable"), (True, "mergesort"))
+                    ok_b = isinstance(lo_, ast.Subscript) and isinstance(hi_, ast.Subscript) and loc_name(lo_.slice) == it \
+                        and norm(hi_.slice) == norm(ast.parse(f"{it} + 1", mode="eval").body)
+                    if ok_b:
+                        b0, b1 = expand_name(du, lo_.value, st), expand_name(du, hi_.value, st)
+                        want_b = (norm(ast.parse(f"np.r_[0, np.cumsum({cnt})]", mode="eval").body), norm(ast.parse(f"np.concatenate(([0], np.cumsum({cnt})))", mode="eval").body))
+                        ok_b = norm(b0) == norm(b1) and norm(b0) in want_b
+                    oksel = ok_order and ok_b
                 okrow = loc_name(row) == it
                 okax = ax is not None and const_value(ax) == (True, 0)
                 rng = expand_name(du, lp.iter, lp)
@@ -365,6 +378,24 @@ def d3_savgol_cover(ctx):
                     pl = evw.ev(_X().visit(_copy.deepcopy(il)))
                     pr = evw.ev(_X().visit(_copy.deepcopy(ir)))
                     okt = pl == Poly.sym(iname) + Poly.sym(jn) - Poly.sym("half_window") and pr == Poly.sym(iname)
+                except Undecided:
+                    okt = False
+    if tw and not okt:
+        # the whole window at once: t[:] = x[i - h : i + h + 1] - x[i]
+        v = tw[0].value
+        if isinstance(v, ast.BinOp) and isinstance(v.op, ast.Sub):
+            def _x_of(e_):
+                while isinstance(e_, ast.Call) and call_name(e_) in ("asarray", "array") and e_.args:
+                    e_ = e_.args[0]
+                return e_
+            l_, r_ = v.left, v.right
+            if isinstance(l_, ast.Subscript) and isinstance(r_, ast.Subscript) and loc_name(_x_of(l_.value)) == "x" and loc_name(_x_of(r_.value)) == "x" and isinstance(l_.slice, ast.Slice) \
+                    and l_.slice.step is None and l_.slice.lower is not None and l_.slice.upper is not None:
+                centre_loops = [lp_ for lo_, hi_, st_, lp_ in ranges if lo_ == H]
+                iname = loc_name(centre_loops[0].target) if centre_loops else "i"
+                try:
+                    evv = Evaluator(env={"half_window": H, iname: Poly.sym("I")}, resolve=lambda e: repo.resolve_expr(fi, e))
+                    okt = evv.ev(l_.slice.lower) == Poly.sym("I") - H and evv.ev(l_.slice.upper) == Poly.sym("I") + H + Poly.const(1) and evv.ev(r_.slice) == Poly.sym("I")
                 except Undecided:
                     okt = False
     ctx.check(okt, fi, tw[0] if tw else fi.node, tw[0] if tw else "t[j]", "local abscissae are x[i - h .. i + h] - x[i] (window centred on the sample)", "the local window is not centred on sample i", key="centre")
